@@ -161,7 +161,10 @@ pub fn c01_index<const N: usize>() {
     let want = md.find(q);
     if !vf::CAN_CATCH { vf::assume(want.is_some()); }
     let mut addr: *const Tok = core::ptr::null();
-    let panicked = vf::catch(|| { addr = &m[&qb] as *const Tok; });
+    let by_key = vf::any_bool(); // Index<&Q> with Q = K as well as with the borrowed form
+    let qk = Tok::new(q);
+    let panicked = vf::catch(|| { addr = if by_key { &m[&qk] as *const Tok } else { &m[&qb] as *const Tok }; });
+    drop(qk);
     match want {
         Some(i) => {
             vf::reach(1);
